@@ -220,6 +220,31 @@ def body(ctx: C.Ctx, proof: C.ProofStatus) -> C.Result:
                 stale = [r["zid"] for r in G.dump_index(zdir) if r["path"] == late]
                 res.failures.append(C.Failure(f"a broken, non-whitelisted page was accepted by a repeated `db reindex` (exit codes {outcomes}); stale notes of it in the index: {stale[:3]}",
                                               {**case, "kind": "reindex_repeat_accepts", "early": early, "late": late}))
+            # ---- a whitelisted page is fixed, indexed, and breaks again: nobody whitelisted THAT breakage ----
+            if zdir.exists():
+                shutil.rmtree(zdir)
+            zdir.mkdir(parents=True)
+            G.write_dir(zdir, files)
+            (zdir / "zbroken.zo").write_text(bad)
+            Z.clear_engine_cache()
+            rc, _, _ = Z.zorg_main(zdir, "db", "create", "-f", config=cfg)
+            if rc != 0:
+                continue
+            (zdir / "zbroken.zo").write_text("# Fixed page\n\n- 240101#zy a note of the fixed page\n")
+            Z.clear_engine_cache()
+            rc_fix, _, _ = Z.zorg_main(zdir, "db", "reindex", config=cfg)
+            fixed_indexed = any(r["path"] == "zbroken.zo" for r in G.dump_index(zdir))
+            (zdir / "zbroken.zo").write_text(bad)
+            Z.clear_engine_cache()
+            rc_again, _, _ = Z.zorg_main(zdir, "db", "reindex", config=cfg)
+            res.evaluations += 1
+            res.count("fixed_then_broken_scenarios")
+            if rc_fix != 0 or not fixed_indexed:
+                res.failures.append(C.Failure(f"a whitelisted page that was fixed is not indexed by the next reindex (rc={rc_fix})", {**case, "kind": "fixed_not_indexed"}))
+            elif rc_again == 0:
+                left = [r["zid"] for r in G.dump_index(zdir) if r["path"] == "zbroken.zo"]
+                res.failures.append(C.Failure("a page that was whitelisted, then fixed and indexed, then broken again is accepted silently by `db reindex` "
+                                              f"(its notes now in the index: {left}): the breakage was never whitelisted", {**case, "kind": "rebroken_accepted"}))
     return res
 
 
@@ -234,7 +259,8 @@ RULE = (
     "texts: valid generated pages, the same with 1-5 random character / token / line edits, truncations, missing header, missing trailing "
     "newline, CRLF, random strings over the lexer alphabet, ASCII and Unicode, plus a corpus of formerly crashing inputs; per text: exception, "
     "parser error count (spy on ErrorManager), has_errors, notes, and whether the listener reached an item; error-free texts also vs the Lean Zo "
-    "model; then db create / -f / whitelist / reindex refusal scenarios with a broken page; non-trivial = damaged or erroneous text"
+    "model; then db create / -f / whitelist / reindex refusal scenarios with a broken page, incl. two pages changed before one reindex and a "
+    "whitelisted page that is fixed, indexed and broken again; non-trivial = damaged or erroneous text"
 )
 ASSUME = ["termination and error reporting of the ANTLR runtime are sampled, not proved (partial)", "file system atomic"]
 
